@@ -17,6 +17,11 @@ class SpecError(Exception):
 
 
 def tables():
+    try:
+        from pyvc import extract
+        extract.ensure_path()
+    except Exception:  # noqa
+        pass
     import pyrtcm.rtcmtypes_core as core
     from pyrtcm.rtcmtypes_get import RTCM_PAYLOADS_GET
     from pyrtcm.rtcmtypes_get_igs import RTCM_PAYLOADS_GET_IGS
